@@ -1,0 +1,8 @@
+//go:build !verif
+// +build !verif
+
+package backend
+
+func verifTraceLocked(ev string, back *BfeBackend, arg int) {}
+
+func verifTrace(ev string, back *BfeBackend, arg int) {}
